@@ -50,6 +50,7 @@ func symxC07() {
 			payload = []byte{rt.Byte("payload"), byte('0' + step)}
 		}
 		retain := rt.Bool("retain")
+		symxTick()
 		err := p.proc.Process(b.ctx, pubS, pubC, &packet.Publish{Header: &packet.Header{Retain: retain}, Topic: []byte(symxRetTopics[t]), Payload: payload})
 		rt.Assert(err == nil, "C07.publish_accepted")
 		rt.Quiesce()
@@ -67,10 +68,22 @@ func symxC07() {
 			rt.Assert(string(lp.Topic) == symxRetTopics[expectLive[k].topic] && bytes.Equal(lp.Payload, expectLive[k].payload), "C07.live_copy_intact")
 		}
 	}
-	// a new subscriber with a solver-chosen filter
-	newS, newC := b.session("new", "cn", "m", 30)
+	// a new subscriber with a solver-chosen filter, on this node or on a second node that has
+	// received this node's broadcasts
+	target, tp := b, p
+	var b2 *symxBroker
+	if rt.Param("replicate", 0) == 1 && rt.Bool("subscribe_on_peer") {
+		b2 = symxNewBroker(2, 1)
+		tp = b2.start(nil)
+		target = b2
+		for _, payload := range rt.Drain(b.bq) {
+			b2.state.Distributor().NotifyMsg(payload)
+		}
+	}
+	newS, newC := target.session("new", "cn", "m", 30)
 	f := int(rt.Int("filter", 0, int64(len(symxRetFilters)-1)))
-	err = p.proc.Process(b.ctx, newS, newC, &packet.Subscribe{Header: &packet.Header{}, MessageId: 7, Topic: [][]byte{[]byte(symxRetFilters[f])}, Qos: []int32{0}})
+	symxTick()
+	err = tp.proc.Process(target.ctx, newS, newC, &packet.Subscribe{Header: &packet.Header{}, MessageId: 7, Topic: [][]byte{[]byte(symxRetFilters[f])}, Qos: []int32{0}})
 	rt.Assert(err == nil, "C07.subscribe_ok")
 	rt.Quiesce()
 	pkts := newC.written()
@@ -97,8 +110,13 @@ func symxC07() {
 		}
 		rt.Assert(seen[t] == want, "C07.exactly_one_replay_per_matching_retained_topic")
 	}
-	rt.Cover(len(replay) >= 2, "C07.two_topics_replayed")
+	if ops >= 2 {
+		rt.Cover(len(replay) >= 2, "C07.two_topics_replayed")
+	}
 	rt.Cover(len(ref[0]) == 0 && len(ref[1]) > 0, "C07.child_retained_parent_not")
 	b.cancel()
+	if b2 != nil {
+		b2.cancel()
+	}
 	rt.Quiesce()
 }
